@@ -11,9 +11,9 @@ import Mathlib.Tactic.FieldSimp
   Everything is reduced to one closed formula, `hashQ n d` ("sign of `n` times the residue of
   `|n| / d` in the field `ZMod (2^127 - 1)`"), which is a function of the value `n / d` as soon as
   `M127 ∤ d` (`hashQ_welldef`).  Each impl of the model is shown to be `hashQ` of the exact value
-  (`numHashFeed_eq_hashQ`), which gives the main theorem `numHash_value`.  The last section is the
+  (`numHashFeedPre_eq_hashQ`), which gives the main theorem `numHashPre_value`.  The last section is the
   `M127 ∣ denominator` corner: the stored-parts rational hash is NOT a function of the value
-  (`ratHash_corner_counterexample`), the canonical one is (`ratHashCanon_value`).
+  (`ratHashPre_corner_counterexample`), the canonical one is (`ratHash_value`).
 -/
 namespace Dashu.Model.Cross
 
@@ -318,16 +318,16 @@ theorem floatFrac_den_not_dvd {B : Nat} (hB : 2 ≤ B) (hBM : B < M127) (s e : I
   · exact not_dvd_one
 
 /-- `RBig`/`Relaxed` feed `hashQ` of the stored fraction when `M127 ∤ den`. -/
-theorem ratHash_eq {n : Int} {d : Nat} (h : ¬ M127 ∣ d) : ratHash n d = hashQ n d := by
+theorem ratHashPre_eq {n : Int} {d : Nat} (h : ¬ M127 ∣ d) : ratHashPre n d = hashQ n d := by
   have hub : d % M127 ≠ 0 := by rwa [Ne, ← Nat.dvd_iff_mod_eq_zero]
-  unfold ratHash
+  unfold ratHashPre
   simp only [hub, if_false]
   rw [i128NumHash_signed, hashQ_val, tmod_M127, natAbs_sg_mul, Nat.cast_mul, ZMod.natCast_mod,
     invMod_cast, ZMod.natCast_mod]
 
 /-- primitive integers feed `hashQ` of their value. -/
 theorem pintHash_eq (t : PrimInt) (v : Int) (h : t.inRange v = true) :
-    numHashFeed (.pint t v) = hashQ v 1 := by
+    numHashFeedPre (.pint t v) = hashQ v 1 := by
   rw [hashQ_one, M127_val]
   cases t <;>
     simp only [PrimInt.inRange, PrimInt.signed, PrimInt.bits, Bool.and_eq_true, if_true, if_false,
@@ -335,7 +335,7 @@ theorem pintHash_eq (t : PrimInt) (v : Int) (h : t.inRange v = true) :
     obtain ⟨h1, h2⟩ := h <;>
     replace h1 := of_decide_eq_true h1 <;>
     replace h2 := of_decide_eq_true h2 <;>
-    simp only [numHashFeed, i128NumHash, u128NumHash, M127_val] <;>
+    simp only [numHashFeedPre, i128NumHash, u128NumHash, M127_val] <;>
     split_ifs <;> omega
 
 set_option linter.unusedVariables false in
@@ -396,7 +396,7 @@ theorem primFloatHash_eq (t : FloatTy) (bits : Nat) (hb : bits < 2 ^ (t.mantBits
 
 /-- well-formedness of a protocol number for hashing (type invariants of the Rust side, plus
     `M127 ∤ den` for the rationals — see the last section for what happens without it) -/
-def Num.HashOK : Num → Prop
+def Num.HashOKPre : Num → Prop
   | .fbig B _ _ _ => 2 ≤ B ∧ B < M127
   | .rbig _ d => 0 < d ∧ ¬ M127 ∣ d
   | .relaxed _ d => 0 < d ∧ ¬ M127 ∣ d
@@ -406,8 +406,8 @@ def Num.HashOK : Num → Prop
 
 /-- every well-formed finite number feeds `hashQ` of its exact value, whose denominator is prime
     to `M127` -/
-theorem numHashFeed_eq_hashQ {x : Num} (hx : x.HashOK) {n : Int} {d : Nat}
-    (vx : x.value = .fin n d) : numHashFeed x = hashQ n d ∧ ¬ M127 ∣ d := by
+theorem numHashFeedPre_eq_hashQ {x : Num} (hx : x.HashOKPre) {n : Int} {d : Nat}
+    (vx : x.value = .fin n d) : numHashFeedPre x = hashQ n d ∧ ¬ M127 ∣ d := by
   cases x with
   | ubig a =>
     simp only [Num.value, XVal.fin.injEq] at vx
@@ -440,11 +440,11 @@ theorem numHashFeed_eq_hashQ {x : Num} (hx : x.HashOK) {n : Int} {d : Nat}
   | rbig a b =>
     simp only [Num.value, XVal.fin.injEq] at vx
     obtain ⟨rfl, rfl⟩ := vx
-    exact ⟨ratHash_eq hx.2, hx.2⟩
+    exact ⟨ratHashPre_eq hx.2, hx.2⟩
   | relaxed a b =>
     simp only [Num.value, XVal.fin.injEq] at vx
     obtain ⟨rfl, rfl⟩ := vx
-    exact ⟨ratHash_eq hx.2, hx.2⟩
+    exact ⟨ratHashPre_eq hx.2, hx.2⟩
   | pint t v =>
     simp only [Num.value, XVal.fin.injEq] at vx
     obtain ⟨rfl, rfl⟩ := vx
@@ -465,11 +465,11 @@ theorem numHashFeed_eq_hashQ {x : Num} (hx : x.HashOK) {n : Int} {d : Nat}
         floatFrac_den_not_dvd (le_refl 2) (by rw [M127_val]; norm_num) m e⟩
 
 /-- MAIN: two well-formed numbers with the same finite value feed the same `i128` to the hasher. -/
-theorem numHash_value {x y : Num} (hx : x.HashOK) (hy : y.HashOK) {n1 n2 : Int} {d1 d2 : Nat}
+theorem numHashPre_value {x y : Num} (hx : x.HashOKPre) (hy : y.HashOKPre) {n1 n2 : Int} {d1 d2 : Nat}
     (vx : x.value = .fin n1 d1) (vy : y.value = .fin n2 d2) (h : n1 * d2 = n2 * d1) :
-    numHashFeed x = numHashFeed y := by
-  obtain ⟨e1, nd1⟩ := numHashFeed_eq_hashQ hx vx
-  obtain ⟨e2, nd2⟩ := numHashFeed_eq_hashQ hy vy
+    numHashFeedPre x = numHashFeedPre y := by
+  obtain ⟨e1, nd1⟩ := numHashFeedPre_eq_hashQ hx vx
+  obtain ⟨e2, nd2⟩ := numHashFeedPre_eq_hashQ hy vy
   rw [e1, e2]
   exact hashQ_welldef nd1 nd2 h
 
@@ -477,34 +477,34 @@ theorem numHash_value {x y : Num} (hx : x.HashOK) (hy : y.HashOK) {n1 n2 : Int} 
 
 /-- when `M127 ∣ den` the stored-parts rational hash is the constant `0` (both `±INF` constants of
     num-order collapse under `i128::num_hash`) -/
-theorem ratHash_of_dvd {d : Nat} (h : M127 ∣ d) (n : Int) : ratHash n d = 0 := by
+theorem ratHashPre_of_dvd {d : Nat} (h : M127 ∣ d) (n : Int) : ratHashPre n d = 0 := by
   have hub : d % M127 = 0 := Nat.mod_eq_zero_of_dvd h
-  unfold ratHash
+  unfold ratHashPre
   simp only [hub, if_true]
   unfold i128NumHash
   split <;> simp
 
-theorem ratHash_zero (d : Nat) : ratHash 0 d = 0 := by
+theorem ratHashPre_zero (d : Nat) : ratHashPre 0 d = 0 := by
   by_cases h : M127 ∣ d
-  · exact ratHash_of_dvd h 0
-  · rw [ratHash_eq h, hashQ_val, Int.natAbs_zero, Nat.cast_zero, zero_mul, sres_zero]
+  · exact ratHashPre_of_dvd h 0
+  · rw [ratHashPre_eq h, hashQ_val, Int.natAbs_zero, Nat.cast_zero, zero_mul, sres_zero]
 
 /-- The stored-parts hash is NOT a function of the value: `1/1` and the non-reduced `Relaxed`
     `M127/M127` have the same value (`(1 : Int) * M127 = M127 * 1`) and feed `1` resp. `0`. -/
-theorem ratHash_corner_counterexample :
-    numHashFeed (.rbig 1 1) ≠ numHashFeed (.relaxed (M127 : Int) M127) := by
-  have h1 : numHashFeed (.rbig 1 1) = 1 := by
-    show ratHash 1 1 = 1
-    rw [ratHash_eq not_dvd_one, hashQ_one, M127_val]
+theorem ratHashPre_corner_counterexample :
+    numHashFeedPre (.rbig 1 1) ≠ numHashFeedPre (.relaxed (M127 : Int) M127) := by
+  have h1 : numHashFeedPre (.rbig 1 1) = 1 := by
+    show ratHashPre 1 1 = 1
+    rw [ratHashPre_eq not_dvd_one, hashQ_one, M127_val]
     decide
-  have h2 : numHashFeed (.relaxed (M127 : Int) M127) = 0 := by
-    show ratHash (M127 : Int) M127 = 0
-    exact ratHash_of_dvd (dvd_refl _) _
+  have h2 : numHashFeedPre (.relaxed (M127 : Int) M127) = 0 := by
+    show ratHashPre (M127 : Int) M127 = 0
+    exact ratHashPre_of_dvd (dvd_refl _) _
   rw [h1, h2]
   exact one_ne_zero
 
-/-- the two numbers of `ratHash_corner_counterexample` have equal values -/
-theorem ratHash_corner_same_value :
+/-- the two numbers of `ratHashPre_corner_counterexample` have equal values -/
+theorem ratHashPre_corner_same_value :
     (Num.rbig 1 1).value = .fin 1 1 ∧ (Num.relaxed (M127 : Int) M127).value = .fin M127 M127 ∧
       (1 : Int) * (M127 : Nat) = (M127 : Int) * (1 : Nat) :=
   ⟨rfl, rfl, by rw [Nat.cast_one, one_mul, mul_one]⟩
@@ -587,23 +587,23 @@ theorem stripped_dvd_key {a a' : Int} {b b' : Nat} (hb : 0 < b)
   · exact h'
   · exact absurd h' hb'
 
-theorem ratHash_value_of_done {a1 a2 : Int} {b1 b2 : Nat} (hb1 : 0 < b1) (hb2 : 0 < b2)
+theorem ratHashPre_value_of_done {a1 a2 : Int} {b1 b2 : Nat} (hb1 : 0 < b1) (hb2 : 0 < b2)
     (hd1 : ¬ (a1 ≠ 0 ∧ M127 ∣ b1 ∧ (M127 : Int) ∣ a1))
     (hd2 : ¬ (a2 ≠ 0 ∧ M127 ∣ b2 ∧ (M127 : Int) ∣ a2))
-    (h : a1 * b2 = a2 * b1) : ratHash a1 b1 = ratHash a2 b2 := by
+    (h : a1 * b2 = a2 * b1) : ratHashPre a1 b1 = ratHashPre a2 b2 := by
   by_cases m1 : M127 ∣ b1 <;> by_cases m2 : M127 ∣ b2
-  · rw [ratHash_of_dvd m1, ratHash_of_dvd m2]
+  · rw [ratHashPre_of_dvd m1, ratHashPre_of_dvd m2]
   · obtain ⟨rfl, rfl⟩ := stripped_dvd_key hb1 hd1 h m1 m2
-    rw [ratHash_zero, ratHash_zero]
+    rw [ratHashPre_zero, ratHashPre_zero]
   · obtain ⟨rfl, rfl⟩ := stripped_dvd_key hb2 hd2 h.symm m2 m1
-    rw [ratHash_zero, ratHash_zero]
-  · rw [ratHash_eq m1, ratHash_eq m2]
+    rw [ratHashPre_zero, ratHashPre_zero]
+  · rw [ratHashPre_eq m1, ratHashPre_eq m2]
     exact hashQ_welldef m1 m2 h
 
 /-- the canonical rational hash is a function of the value, for ALL rationals -/
-theorem ratHashCanon_value {n1 n2 : Int} {d1 d2 : Nat} (h1 : 0 < d1) (h2 : 0 < d2)
-    (h : n1 * d2 = n2 * d1) : ratHashCanon n1 d1 = ratHashCanon n2 d2 := by
-  unfold ratHashCanon
+theorem ratHash_value {n1 n2 : Int} {d1 d2 : Nat} (h1 : 0 < d1) (h2 : 0 < d2)
+    (h : n1 * d2 = n2 * d1) : ratHash n1 d1 = ratHash n2 d2 := by
+  unfold ratHash
   simp only []
   obtain ⟨e1, p1⟩ := stripM_value' (bitLen d1) n1 d1 h1
   obtain ⟨e2, p2⟩ := stripM_value' (bitLen d2) n2 d2 h2
@@ -612,7 +612,7 @@ theorem ratHashCanon_value {n1 n2 : Int} {d1 d2 : Nat} (h1 : 0 < d1) (h2 : 0 < d
   simp only [] at q1 q2
   generalize stripM (bitLen d1) n1 d1 = s1 at e1 p1 q1 ⊢
   generalize stripM (bitLen d2) n2 d2 = s2 at e2 p2 q2 ⊢
-  apply ratHash_value_of_done p1 p2 q1 q2
+  apply ratHashPre_value_of_done p1 p2 q1 q2
   have hdd : ((d1 : Int) * (d2 : Int)) ≠ 0 := by
     have a1 : (d1 : Int) ≠ 0 := by exact_mod_cast h1.ne'
     have a2 : (d2 : Int) ≠ 0 := by exact_mod_cast h2.ne'
@@ -631,25 +631,25 @@ theorem stripM_id {n : Int} {d : Nat} (h : ¬ (M127 ∣ d ∧ (M127 : Int) ∣ n
     exact h ⟨Nat.dvd_of_mod_eq_zero h2, Int.dvd_of_emod_eq_zero h3, h1⟩
 
 /-- the canonical rational hash is the stored-parts one unless `M127` divides both stored parts -/
-theorem ratHashCanon_eq_ratHash {n : Int} {d : Nat}
-    (h : ¬ (M127 ∣ d ∧ (M127 : Int) ∣ n ∧ n ≠ 0)) : ratHashCanon n d = ratHash n d := by
-  unfold ratHashCanon
+theorem ratHash_eq_ratHashPre {n : Int} {d : Nat}
+    (h : ¬ (M127 ∣ d ∧ (M127 : Int) ∣ n ∧ n ≠ 0)) : ratHash n d = ratHashPre n d := by
+  unfold ratHash
   simp only [stripM_id h]
 
-/-- well-formedness for the canonical feed: as `Num.HashOK`, but any positive denominator -/
-def Num.HashOKCanon : Num → Prop
+/-- well-formedness for the canonical feed: as `Num.HashOKPre`, but any positive denominator -/
+def Num.HashOK : Num → Prop
   | .rbig _ d => 0 < d
   | .relaxed _ d => 0 < d
-  | x => x.HashOK
+  | x => x.HashOKPre
 
-theorem numHashFeedCanon_eq {x : Num} (hx : x.HashOKCanon) {n : Int} {d : Nat}
-    (vx : x.value = .fin n d) : numHashFeedCanon x = ratHashCanon n d ∧ 0 < d := by
-  have other : ∀ {y : Num}, y.HashOK → y.value = .fin n d → numHashFeedCanon y = numHashFeed y →
-      numHashFeedCanon y = ratHashCanon n d ∧ 0 < d := by
+theorem numHashFeed_eq {x : Num} (hx : x.HashOK) {n : Int} {d : Nat}
+    (vx : x.value = .fin n d) : numHashFeed x = ratHash n d ∧ 0 < d := by
+  have other : ∀ {y : Num}, y.HashOKPre → y.value = .fin n d → numHashFeed y = numHashFeedPre y →
+      numHashFeed y = ratHash n d ∧ 0 < d := by
     intro y hy vy hc
-    obtain ⟨e, nd⟩ := numHashFeed_eq_hashQ hy vy
+    obtain ⟨e, nd⟩ := numHashFeedPre_eq_hashQ hy vy
     refine ⟨?_, Nat.pos_of_ne_zero fun h0 => nd (h0 ▸ dvd_zero _)⟩
-    rw [hc, e, ratHashCanon_eq_ratHash (fun hh => nd hh.1), ratHash_eq nd]
+    rw [hc, e, ratHash_eq_ratHashPre (fun hh => nd hh.1), ratHashPre_eq nd]
   cases x with
   | rbig a b =>
     simp only [Num.value, XVal.fin.injEq] at vx
@@ -667,12 +667,12 @@ theorem numHashFeedCanon_eq {x : Num} (hx : x.HashOKCanon) {n : Int} {d : Nat}
 
 /-- MAIN (canonical feed): two well-formed numbers — rationals with ANY positive denominator —
     with the same finite value feed the same `i128`. -/
-theorem numHashCanon_value {x y : Num} (hx : x.HashOKCanon) (hy : y.HashOKCanon)
+theorem numHash_value {x y : Num} (hx : x.HashOK) (hy : y.HashOK)
     {n1 n2 : Int} {d1 d2 : Nat} (vx : x.value = .fin n1 d1) (vy : y.value = .fin n2 d2)
-    (h : n1 * d2 = n2 * d1) : numHashFeedCanon x = numHashFeedCanon y := by
-  obtain ⟨e1, p1⟩ := numHashFeedCanon_eq hx vx
-  obtain ⟨e2, p2⟩ := numHashFeedCanon_eq hy vy
+    (h : n1 * d2 = n2 * d1) : numHashFeed x = numHashFeed y := by
+  obtain ⟨e1, p1⟩ := numHashFeed_eq hx vx
+  obtain ⟨e2, p2⟩ := numHashFeed_eq hy vy
   rw [e1, e2]
-  exact ratHashCanon_value p1 p2 h
+  exact ratHash_value p1 p2 h
 
 end Dashu.Model.Cross
